@@ -269,17 +269,17 @@ def campaign(run: common.Run) -> None:
     def body_names(c):
         check_names(run, c[0], c[1], c[2], c[3], run.hyp_fail)
 
-    common.drive(run, body_typed, {"p": gen.typed_program(4)}, 1200 if q else 6000, seed_salt=1)
-    common.drive(run, body_any, {"p": gen.any_program(4)}, 1500 if q else 7000, seed_salt=2)
+    common.drive(run, body_typed, {"p": gen.typed_program(4)}, 1200 if q else 4000, seed_salt=1)
+    common.drive(run, body_any, {"p": gen.any_program(4)}, 1500 if q else 4000, seed_salt=2)
     from checks import c12
 
     # dotted names: overlapping bindings (a.b and a.b.c), packages, leading-dot references - resolved the same way by both runners
-    common.drive(run, body_names, {"c": c12.random_bindings()}, 500 if q else 2500, seed_salt=6)
+    common.drive(run, body_names, {"c": c12.random_bindings()}, 500 if q else 1500, seed_salt=6)
     # one program object per runner, several activations in a row
-    common.drive(run, body_seq, {"c": sequence_case()}, 400 if q else 1500, seed_salt=7)
-    common.drive(run, body_typed, {"p": gen.nested_macro_program()}, 400 if q else 2000, seed_salt=4)
-    common.drive(run, body_typed, {"p": gen.document_program()}, 600 if q else 3000, seed_salt=5)
-    common.drive(run, body_mut, {"s": progs.mutated_corpus()}, 500 if q else 3000, seed_salt=3)
+    common.drive(run, body_seq, {"c": sequence_case()}, 400 if q else 800, seed_salt=7)
+    common.drive(run, body_typed, {"p": gen.nested_macro_program()}, 400 if q else 1200, seed_salt=4)
+    common.drive(run, body_typed, {"p": gen.document_program()}, 600 if q else 1500, seed_salt=5)
+    common.drive(run, body_mut, {"s": progs.mutated_corpus()}, 500 if q else 1500, seed_salt=3)
 
 
 def main(run: common.Run) -> None:
